@@ -31,6 +31,15 @@ type KNode struct {
 	*KEmb
 }
 
+// KAlt: another struct type that may sit behind the same interface field; same field names as KNode for the
+// four fields it has, at different positions
+type KAlt struct {
+	List []string
+	Num  int
+	Name string
+	Sub  *KNode
+}
+
 func vkIsNil(m map[string]interface{}) bool { z, _ := m["z"].(bool); return z }
 
 func vkStrs(x interface{}) []string {
@@ -74,6 +83,10 @@ func vkNode(x interface{}) *KNode {
 		case "node":
 			if c := vkNode(a["v"]); c != nil {
 				n.Any = *c
+			}
+		case "alt":
+			if c := vkNode(a["v"]); c != nil {
+				n.Any = KAlt{List: c.List, Num: c.Num, Name: c.Name, Sub: c.Sub}
 			}
 		case "ptr":
 			n.Any = vkNode(a["v"]) // may be a typed nil pointer
